@@ -48,3 +48,17 @@ func vPipelineOpt(svr *Server, reqs []requestPacket, withController bool) [][]by
 	return cap.pkts
 }
 
+
+// request ids are the client's choice: arbitrary, pairwise distinct (added
+// after seeded change C14-d, which keyed on one particular id)
+func vIDs(n int) []uint32 {
+	ids := make([]uint32, n)
+	for i := range ids {
+		ids[i] = vNondetU32()
+		for j := 0; j < i; j++ {
+			vAssume(ids[i] != ids[j])
+		}
+	}
+	return ids
+}
+
